@@ -64,6 +64,8 @@ func (e *Engine) calleesOf(c ssa.CallInstruction) []*ssa.Function {
 var creditNames = []string{"SendCoinsFromModuleToAccount", "MintCoins", "SendCoins"}
 
 func runC05(e *Engine, r *Report, tier string) {
+	running["C05"]++
+	defer func() { running["C05"]-- }()
 	r.Explanation = "C05, structural clauses. Decided: R1 sequence counters (0x25…) are written only by the read/+1/write/return-old routine and every record id comes from it; R2 the batch builder removes each selected transfer from the pool (0x18) on every path after selecting it and verifies absence, batch cancel re-adds the batch's own transfers unchanged and deletes the batch (0x20,0x21) on the success path, the executed-batch handler deletes batch and confirmations and never re-adds its transfers; R3 refunds are paired with the deletion of the record on the same success path (pool: delete dominates the refund; bridge call: refund is followed by the delete on every success path and is conditional on failure/timeout); R4 the stored sender must equal the caller-supplied sender before delete and refund, and the refund goes to that sender; R5 a fee increase re-keys the same transfer (delete old key, then set) with fee += the debited amount; R6 record fields come from the creator's parameters; R8 an observed (parked) execution result excludes the timeout refund (C06.R7). Not decided: multi-step histories, amounts inside bank/EVM."
 	r.Rule("R1", "ids come from the auto-increment routine; counters written nowhere else", 4, "writers of crosschain:25* + Id/BatchNonce/Nonce stores")
 	r.Rule("R2", "pool XOR batch: picked txs removed+verified; cancel re-adds unchanged and deletes batch; executed deletes batch+confirms", 4, "functions writing 0x18/0x20")
@@ -1116,3 +1118,8 @@ func fieldNameOfLoad(v ssa.Value) (string, types.Type, bool) {
 	}
 	return fieldName(v)
 }
+
+
+// running counts the property checks currently on the stack (checks import each other's obligations as sub-reports; a
+// cycle of imports is cut where it would close).
+var running = map[string]int{}
